@@ -10,6 +10,7 @@ package rig
 import (
 	"encoding/json"
 	"fmt"
+	"runtime/debug"
 	"sort"
 
 	"verifsim/internal/api"
@@ -20,7 +21,7 @@ import (
 // Runs is the number of rig run indices of a tier.
 func Runs(tier string) int {
 	if tier == "thorough" {
-		return 12000
+		return 9600 // x4 schedules, ~25x more cancellation points per schedule than quick
 	}
 	return 2400
 }
@@ -38,6 +39,17 @@ var (
 	minimisedPerClass = map[string]int{}
 	taggedPerFinding  = map[string]int{}
 )
+
+// debugFacts adds a counter per (class, cancellation situation); exploration aid.
+var debugFacts = false
+
+func factSig(cf cancelFacts) string {
+	if !cf.fired {
+		return "no-cancel"
+	}
+	return fmt.Sprintf("op=%s steps>0=%v busy=%v state=%d resident=%v sem=%d/%d cmdLine=%d cmdSelf=%d cmdOthers=%d overfull=%v",
+		cf.op, cf.steps > 0, cf.busy, cf.state, cf.resident, cf.semRead, cf.semWrite, cf.cmdLine, cf.cmdSelf, cf.cmdOthers, cf.overfull)
+}
 
 // offsetsFor lists the cancellation offsets to evaluate for one request whose
 // baseline lifetime is t.steps steps.
@@ -94,7 +106,14 @@ type sample struct {
 // RunIndex executes rig run idx (0-based within the rig part) and records
 // evaluations, counters, distinct states, samples and violations into res.
 func RunIndex(seed uint64, idx int, tier string, res *api.Result, kf *findings.Set) {
-	sc := generate(seed, idx)
+	// the simulation allocates many short-lived small objects (a map per core
+	// and cycle inside coSnoop, the snapshots) on a tiny live heap: collect less often
+	defer debug.SetGCPercent(debug.SetGCPercent(2000))
+	runScenario(generate(seed, idx), seed, idx, tier, res, kf)
+}
+
+// runScenario is RunIndex for a given schedule.
+func runScenario(sc *Scenario, seed uint64, idx int, tier string, res *api.Result, kf *findings.Set) {
 	r := rng.New(rng.Derive(seed, uint64(idx), 0xca9ce1))
 	emitted := 0
 	report := func(s *Scenario, out *outcome, base *outcome) {
@@ -102,6 +121,9 @@ func RunIndex(seed uint64, idx int, tier string, res *api.Result, kf *findings.S
 			return
 		}
 		res.Count("rig:failed:"+out.class+"@"+sc.Variant, 1)
+		if debugFacts {
+			res.Count("dbg:"+out.class+"@"+sc.Variant+" | "+factSig(out.cf), 1)
+		}
 		if s.Cancel == nil {
 			res.Count("rig:failed-without-cancellation", 1)
 		} else {
@@ -136,6 +158,8 @@ func RunIndex(seed uint64, idx int, tier string, res *api.Result, kf *findings.S
 	res.Evaluations++
 	res.SimCycles += int64(base.cycles)
 	res.Count("rig:evaluations-without-cancellation", 1)
+	res.Count("rig:failed-without-cancellation", 0) // always present, so a fault-free failure is visible
+	res.Count("rig:failed-with-cancellation", 0)
 	res.Count("rig:requests", int64(len(sc.Requests)))
 	if base.inconclusive {
 		res.Inconclusive++
